@@ -6,6 +6,11 @@ Open Scope Z_scope.
 
 Ltac ocase :=
   intros;
+  repeat match goal with o : obj |- _ => destruct o as [? [?|] ? [] [] [] [] [] [] [] ?] end;
+  simpl in *; repeat split; intros; try reflexivity; try discriminate; auto; try congruence.
+(* the same, also splitting on the key-switch record *)
+Ltac ocase2 :=
+  intros;
   repeat match goal with o : obj |- _ => destruct o as [? [?|] ? [] [] [] [] [] [] [] [?|]] end;
   simpl in *; repeat split; intros; try reflexivity; try discriminate; auto; try congruence.
 
@@ -159,9 +164,9 @@ Proof.
   intros o Hk Hj. unfold register_obj.
   destruct (okey o) as [k|] eqn:Ek.
   - destruct (key_eqb k (pk (get st i), otok (get st i))) eqn:Ee.
-    + apply key_eqb_eq in Ee. subst k. revert Hj Ek. destruct (has_tx st); ocase.
-    + revert Hj Ek. destruct (has_tx st); ocase.
-  - revert Hj Ek. destruct (has_tx st); ocase.
+    + apply key_eqb_eq in Ee. subst k. revert Hj Ek. destruct (has_tx st); ocase2.
+    + revert Hj Ek. destruct (has_tx st); ocase2.
+  - revert Hj Ek. destruct (has_tx st); ocase2.
 Qed.
 
 Lemma finalize_inv : forall st0 reg st, Inv st -> Inv (finalize st0 reg st).
